@@ -21,6 +21,7 @@ CONSTANTS
   Ports,     \* configured passive ports
   UsePool,   \* TRUE: data_ports configured (Ports), FALSE: ephemeral ports
   Idle, WaitData, SockT,  \* timeouts in ms, 0 = off
+  V6,        \* TRUE: the server listens on an IPv6 address (PASV cannot be answered: 503 and the session is ended)
   KF         \* set of known-finding slugs whose deviating behaviour is admitted (always {} for the design)
 
 VARIABLES
@@ -273,6 +274,10 @@ Outcomes(r, t) ==
     [] v = "pbsz" -> same(<<"200">>, r)
     [] v = "prot" -> IF r.h.x = "P" THEN same(<<"200">>, r) ELSE same(<<"502">>, r)
     [] v = "epsv" /\ r.h.x # "" -> same(<<"522">>, [r EXCEPT !.ph = "drain"])
+    [] v = "pasv" /\ V6 ->      \* the listener is opened (or already there) before the address family is looked at
+         IF r.lsn # 0 /\ r.h.pc = "" THEN same(<<"503">>, [r EXCEPT !.ph = "drain"])
+         ELSE IF r.h.pc = "bound" THEN same(<<"503">>, [r EXCEPT !.lsn = r.h.port, !.ph = "drain"])
+         ELSE {}
     [] v \in {"pasv", "epsv"} ->
          IF r.lsn # 0 /\ r.h.pc = ""       \* listener already there: drop a parked data connection
            THEN same(<<IF v = "pasv" THEN "227" ELSE "229">>,
